@@ -243,6 +243,10 @@ class Ctx:
     def time_left(self):
         return None if self.deadline is None else self.deadline - time.time()
 
+    def expired(self):
+        """true once a failing-input search has used up its time (or found what it looked for)"""
+        return self.deadline is not None and (time.time() > self.deadline or bool(self.violations))
+
     def budget(self, quick, thorough):
         return quick if self.tier == 'quick' else thorough
 
